@@ -184,32 +184,46 @@ def r2_owner(ctx) -> None:
             ctx.check(inside, "C10.R2", f"{mn}.{fn.name if fn else '<module>'}: writes .{tgt.attr}", m.path, node.lineno,
                       f"the `{tgt.attr}` table of an extension may only be written by Extension.{owners[tgt.attr]} (which also sets the owner back-reference)", node)
     ctx.stats["C10.R2 writes to definition tables"] = n
+    from ..rulekit import unold
     for d, adder in owners.items():
         m = c.methods.get(adder)
         if m is None:
             ctx.broken(f"anchor vanished: Extension.{adder}")
         p = m.args.args[1].arg
-        body = real_body(m)
-        idx_owner = [i for i, s in enumerate(body) if isinstance(s, ast.Assign) and u(s.targets[0]) == f"{p}._extension" and u(s.value) == "self"]
-        idx_store = [i for i, s in enumerate(body) if isinstance(s, ast.Assign) and u(s.targets[0]) == f"self.{d}[{p}.name]" and u(s.value) == p]
-        ok = len(idx_owner) == 1 and len(idx_store) == 1 and idx_owner[0] < idx_store[0]
+        # path summaries of the canonical body (unknown helpers seen through): owner first, then the table entry, then the answer
+        ps = [q for q in ctx.paths(f"{EXT}.Extension.{adder}") if q.kind != "raise"]
+        ok = ok_ret = bool(ps)
+        found = ""
+        for q in ps:
+            own = [i for i, e in enumerate(q.effects) if isinstance(e, ast.Assign) and unold(e.targets[0]) == f"{p}._extension" and unold(e.value) == "self"]
+            sto = [i for i, e in enumerate(q.effects) if isinstance(e, ast.Assign) and unold(e.targets[0]) == f"self.{d}[{p}.name]" and unold(e.value) == p]
+            ok = ok and len(own) == 1 and len(sto) == 1 and own[0] < sto[0]
+            ok_ret = ok_ret and q.kind == "return" and unold(q.value) in (f"self.{d}[{p}.name]", p)
+            found = " ; ".join(q.effect_texts())[:240]
         ctx.check(ok, "C10.R2", f"hugr.ext.Extension.{adder}: owner set before registration", file, m.lineno,
                   f"{adder} must set {p}._extension = self and then store the definition under its own name", m,
-                  expected=f"{p}._extension = self; self.{d}[{p}.name] = {p}", found="; ".join(u(s) for s in body)[:240])
-        rets = [s for s in body if isinstance(s, ast.Return)]
-        ctx.check(len(rets) == 1 and u(rets[0].value) in (f"self.{d}[{p}.name]", p), "C10.R2", f"hugr.ext.Extension.{adder}: returns the registered definition", file, m.lineno, "", m)
+                  expected=f"{p}._extension = self; self.{d}[{p}.name] = {p}", found=found)
+        ctx.check(ok_ret, "C10.R2", f"hugr.ext.Extension.{adder}: returns the registered definition", file, m.lineno, "", m)
     # runtime requirement added to polymorphic signatures before the definition becomes reachable
     m = c.methods["add_op_def"]
     p = m.args.args[1].arg
-    body = real_body(m)
-    ifs = [i for i, s in enumerate(body) if isinstance(s, ast.If) and u(s.test) == f"{p}.signature.poly_func is not None"]
-    ok = False
-    if len(ifs) == 1:
-        blk = body[ifs[0]]
-        st = [s for s in blk.body if isinstance(s, ast.Assign)]
-        ok = len(st) == 1 and u(st[0].targets[0]) == f"{p}.signature.poly_func" and u(st[0].value) == f"{p}.signature.poly_func.with_runtime_reqs([self.name])" and not blk.orelse
-        store = [i for i, s in enumerate(body) if isinstance(s, ast.Assign) and u(s.targets[0]).startswith("self.operations[")]
-        ok = ok and store and ifs[0] < store[0]
+    ps = [q for q in ctx.paths(f"{EXT}.Extension.add_op_def") if q.kind != "raise"]
+    ok = bool(ps)
+    seen = set()
+    for q in ps:
+        poly = [k for t, k in q.tests if u(t) == f"{p}.signature.poly_func is not None"]
+        req = [i for i, e in enumerate(q.effects) if isinstance(e, ast.Assign) and unold(e.targets[0]) == f"{p}.signature.poly_func"
+               and unold(e.value) == f"{p}.signature.poly_func.with_runtime_reqs([self.name])"]
+        sto = [i for i, e in enumerate(q.effects) if isinstance(e, ast.Assign) and unold(e.targets[0]).startswith("self.operations[")]
+        if not poly:
+            ok = False
+        elif poly[0]:
+            seen.add(True)
+            ok = ok and len(req) == 1 and bool(sto) and req[0] < sto[0]
+        else:
+            seen.add(False)
+            ok = ok and not req
+    ok = ok and seen == {True, False}
     ctx.check(bool(ok), "C10.R2", "hugr.ext.Extension.add_op_def: own extension among the signature's requirements", file, m.lineno,
               "every operation definition held by an extension must name that extension among its signature's runtime requirements: "
               "add_op_def has to replace a present type scheme by with_runtime_reqs([self.name]) before registering it", m)
